@@ -58,14 +58,21 @@ def save_results(r):
         json.dump(r, fp, indent=1, sort_keys=True)
 
 
-def do_import(pid):
-    src = f"/tmp/seed-{pid}/_seed"
+def do_import(pid, src=None):
+    """copy <src>/<k>/* to /verif/seeded/<pid>-<next free number>/"""
+    src = src or f"/tmp/seed-{pid}/_seed"
+    names = []
     for k in sorted(os.listdir(src)):
-        dst = os.path.join(SEEDED, f"{pid}-{k}")
-        os.makedirs(dst, exist_ok=True)
+        n = 1
+        while os.path.exists(os.path.join(SEEDED, f"{pid}-{n}")):
+            n += 1
+        dst = os.path.join(SEEDED, f"{pid}-{n}")
+        os.makedirs(dst)
         for f in ("patch.diff", "demo.py", "meta.json"):
             shutil.copy(os.path.join(src, k, f), os.path.join(dst, f))
         print("imported", dst)
+        names.append(f"{pid}-{n}")
+    return names
 
 
 def do_verify(name):
@@ -163,8 +170,7 @@ if __name__ == "__main__":
         args.remove("--thorough")
         tier = "thorough"
     if cmd == "import":
-        for a in args:
-            do_import(a)
+        do_import(args[0], args[1] if len(args) > 1 else None)
     elif cmd == "verify":
         for a in args:
             do_verify(a)
